@@ -84,10 +84,11 @@ fn op_strategy(f: Focus) -> BoxedStrategy<ROp> {
 }
 
 pub fn strategy(f: Focus) -> BoxedStrategy<RegCase> {
-    let prior = match f {
+    let base = match f {
         Focus::C04 => prop_oneof![1 => Just(0u8), 1 => Just(1u8), 3 => Just(2u8), 3 => Just(3u8)].boxed(),
         _ => prop_oneof![5 => Just(0u8), 1 => Just(1u8), 1 => Just(2u8), 1 => Just(3u8)].boxed(),
     };
+    let prior = (base, prop_oneof![3 => Just(0u8), 2 => 1u8..5]).prop_map(|(b, fl)| b | (fl << 2)).boxed();
     let nsolo = if f == Focus::C03 { 0.6 } else { 0.15 };
     (
         vec(vec(op_strategy(f), 1..6), 2..6),
@@ -263,17 +264,32 @@ fn foreign_sigaction(sig: c_int, variant: u8) {
     }
 }
 
+/// `kind & 3`: 0 default, 1 ignore, 2 plain handler, 3 siginfo handler. `(kind >> 2) & 7` picks
+/// additional `sa_flags` the third party installed it with (the kernel stores and reports them
+/// verbatim): 1..3 = other flag bits; 4 = `SA_SIGINFO` left set on a default/ignore disposition
+/// (what C code gets when it "disables" a three-argument handler by overwriting only the handler
+/// field of the struct it installed with).
 fn install_prior(sig: c_int, kind: u8) {
     unsafe {
         let mut sa: libc::sigaction = std::mem::zeroed();
-        match kind {
+        match kind & 3 {
+            0 => sa.sa_sigaction = libc::SIG_DFL,
             1 => sa.sa_sigaction = libc::SIG_IGN,
             2 => sa.sa_sigaction = foreign1 as usize,
-            3 => {
+            _ => {
                 sa.sa_sigaction = foreign3 as usize;
                 sa.sa_flags = libc::SA_SIGINFO;
             }
-            _ => return,
+        }
+        sa.sa_flags |= match (kind >> 2) & 7 {
+            1 => libc::SA_RESTART,
+            2 => libc::SA_NODEFER | libc::SA_ONSTACK | libc::SA_RESTART,
+            3 => libc::SA_NOCLDSTOP | libc::SA_NOCLDWAIT,
+            4 if kind & 3 < 2 => libc::SA_SIGINFO,
+            _ => 0,
+        };
+        if kind == 0 {
+            return;
         }
         libc::sigaction(sig, &sa, std::ptr::null_mut());
     }
@@ -1076,7 +1092,7 @@ pub fn analyse(case: &RegCase, res: &RunResult) -> CaseReport {
     // None = default/ignore, Some(name) = a real handler
     let prior_at = |sig: i64, pos: usize| -> Option<&'static str> {
         let si = SIGS.iter().position(|s| *s as i64 == sig).unwrap_or(0);
-        let mut cur: Option<&'static str> = match case.priors.get(si).cloned().unwrap_or(0) {
+        let mut cur: Option<&'static str> = match case.priors.get(si).cloned().unwrap_or(0) & 3 {
             2 => Some("foreign1"),
             3 => Some("foreign3"),
             _ => None,
@@ -1161,8 +1177,14 @@ pub fn analyse(case: &RegCase, res: &RunResult) -> CaseReport {
             }
         }
     }
-    if case.priors.iter().any(|p| *p >= 2) && dels.iter().any(|d| d.target == 1) {
+    if case.priors.iter().any(|p| *p & 3 >= 2) && dels.iter().any(|d| d.target == 1) {
         rep.class("prior-handler-chained");
+    }
+    if case.priors.iter().any(|p| *p & 3 < 2 && (*p >> 2) & 7 == 4) && dels.iter().any(|d| d.target == 1) {
+        rep.class("prior-default-or-ignore-with-siginfo-flag");
+    }
+    if case.priors.iter().any(|p| (*p >> 2) & 7 != 0 && (*p >> 2) & 7 != 4) {
+        rep.class("prior-with-extra-flags");
     }
 
     // ---- C18 non-trivial
@@ -1311,6 +1333,7 @@ fn render(case: &RegCase, res: &RunResult) -> Value {
 pub fn run_case(case: &RegCase) -> CaseReport {
     let case2 = case.clone();
     let end = fork_case(20_000, move || {
+        crate::forkrun::install_segv_probe();
         let (_res, rep) = execute(&case2);
         serde_json::to_value(&rep).unwrap()
     });
@@ -1319,6 +1342,16 @@ pub fn run_case(case: &RegCase) -> CaseReport {
             Ok(r) => r,
             Err(e) => CaseReport { inconclusive: Some(format!("bad child report: {}", e)), ..Default::default() },
         },
+        ChildEnd::Exited { code, .. } if code == crate::forkrun::EXIT_CALLED_DFL_IGN => {
+            let mut r = CaseReport::default();
+            r.viol("C04/called-default-or-ignore", "the process jumped to address 0 or 1: a default/ignore disposition was called as if it were a handler".into());
+            r.viol("crash/sig=11", "the child running the case faulted (instruction pointer 0 or 1)".into());
+            r.nontrivial = true;
+            r.aborted = true;
+            r.hash = hash_of(&format!("{:?}", case));
+            r.sample = Some(json!({"threads": case.threads, "priors": case.priors, "child": "SIGSEGV with the instruction pointer at 0 or 1"}));
+            r
+        }
         ChildEnd::Signaled { sig, .. } => {
             let mut r = CaseReport::default();
             r.viol(&format!("crash/sig={}", sig), format!("the child running the case was killed by signal {}", sig));
@@ -1541,7 +1574,7 @@ fn c04_extra(def: &PropDef, _args: &WorkerArgs, report: &mut WorkerReport) {
 pub static C04: PropDef = PropDef {
     id: "C04",
     prefixes: &["C04/"],
-    rule: "same generator with real pre-existing dispositions {default, ignore, plain handler, siginfo handler} installed by sigaction before the run; oracle: every delivery dispatched to the library for a signal with a pre-existing handler calls it exactly once, before any action, with its convention and the kernel's info/context pointers; none for default/ignore. Non-trivial = delivery between the library handler's installation and the completion of that first registration, or during another signal's first registration; distinct = hash of realised interleaving + priors",
+    rule: "same generator with real pre-existing dispositions {default, ignore, plain handler, siginfo handler} x additional sa_flags {none, SA_RESTART, SA_NODEFER|SA_ONSTACK|SA_RESTART, SA_NOCLDSTOP|SA_NOCLDWAIT, SA_SIGINFO left set on default/ignore} installed by sigaction before the run; oracle: every delivery dispatched to the library for a signal with a pre-existing handler calls it exactly once, before any action, with its convention and the kernel's info/context pointers; none for default/ignore. Non-trivial = delivery between the library handler's installation and the completion of that first registration, or during another signal's first registration; distinct = hash of realised interleaving + priors",
     assumptions: ASSUME,
     cases: (1500, 40_000),
     shrink_iters: 600,
